@@ -47,6 +47,9 @@ pub fn parse_ignore(source: &Path, config: &Config) -> Result<Option<Gitignore>>
 pub fn ignore_filter(entry: &DirEntry, ignore: &Option<Gitignore>) -> bool {
     match ignore {
         None => true,
+        // The source root itself is never subject to its own ignore
+        // file (its name may well match a pattern such as `*`).
+        Some(_) if entry.depth() == 0 => true,
         Some(gi) => {
             let path = entry.path();
             // Use the entry's own type: a symlink to a directory is
